@@ -79,17 +79,31 @@ func extraCommand(name string, args []string) bool {
 // implementation never finishes (a lost wake-up, a leaked lock) would otherwise hold the
 // stream until the caller's process timeout: the watchdog ends the process instead, and the
 // check reports the early end as a crash at this line with the ops so far as the replay.
-var opStarted int64
+var opStarted, opLimit int64
+
+// cores whose single operations legitimately take long (whole scenarios, exhaustive sweeps,
+// timed keep-alive windows); everything else answers within milliseconds
+var slowCores = map[string]time.Duration{
+	"ring": 240 * time.Second, "codec": 240 * time.Second, "conc": 240 * time.Second,
+	"life": 120 * time.Second, "ka": 120 * time.Second, "broker": 60 * time.Second, "client": 60 * time.Second,
+}
+
+func opLimitOf(core string) time.Duration {
+	if v, err := time.ParseDuration(os.Getenv("CORR_OP_TIMEOUT")); err == nil && v > 0 {
+		return v
+	}
+	if d, ok := slowCores[core]; ok {
+		return d
+	}
+	return 20 * time.Second
+}
 
 func opWatchdog() {
-	limit := 300 * time.Second
-	if v, err := time.ParseDuration(os.Getenv("CORR_OP_TIMEOUT")); err == nil && v > 0 {
-		limit = v
-	}
 	for {
 		time.Sleep(time.Second)
-		if t := atomic.LoadInt64(&opStarted); t != 0 && time.Since(time.Unix(0, t)) > limit {
-			fmt.Fprintf(os.Stderr, "harness: operation did not finish within %v, giving up on this stream\n", limit)
+		t, lim := atomic.LoadInt64(&opStarted), time.Duration(atomic.LoadInt64(&opLimit))
+		if t != 0 && lim > 0 && time.Since(time.Unix(0, t)) > lim {
+			fmt.Fprintf(os.Stderr, "harness: operation did not finish within %v, giving up on this stream\n", lim)
 			os.Exit(4)
 		}
 	}
@@ -127,6 +141,7 @@ func runAll() {
 			c = mk()
 			live[ws[0]] = c
 		}
+		atomic.StoreInt64(&opLimit, int64(opLimitOf(ws[0])))
 		atomic.StoreInt64(&opStarted, time.Now().UnixNano())
 		res := safeHandle(c, ws[1:])
 		atomic.StoreInt64(&opStarted, 0)
